@@ -7,7 +7,7 @@ RULE = ('structured lattice: secs {0,1,58,59,60,3599,3600,43199,43200,86340,8639
         '{0,1,10^9-1,10^9,10^9+1,1.5*10^9,2*10^9-1} x durations {0,+-1ns,+-(10^9-frac)+-1,+-(2*10^9-frac)+-1,'
         '+-0.5s,+-1s,+-59/60/61s,+-86399/86400/86401s,+-172800s,TimeDelta MIN/MAX}; all pairs of lattice times for '
         'differences; constructor/field arguments {0..61, 10^9+-1, 2*10^9+-1, u32::MAX}; core Durations incl. '
-        'multiples of 86400/172800 and u64::MAX; offsets {0,+-1,+-3599,+-3600,+-86399}; plus seeded random draws; '
+        'multiples of 86400/172800 and u64::MAX; NaiveDate::and_hms* on dates {range ends, leap day, year ends, epoch, non-existent}; offsets {0,+-1,+-3599,+-3600,+-86399}; plus seeded random draws; '
         'thorough: all 86400 seconds x 7 fracs, each with 6 of 40 fixed durations in rotation (every duration meets every second-of-minute and every frac), add and sub alternating; date-times (range ends, leap years) x leap/non-leap times for ndt.add/ndt.sub')
 
 MAXS, MAXN = 9223372036854775, 807000000
@@ -93,6 +93,10 @@ OFFS = [0, 1, -1, 59, -59, 60, -60, 3599, -3599, 3600, -3600, 43200, -43200, 863
 FIELD = list(range(0, 62)) + [G - 1, G, G + 1, 2 * G - 1, 2 * G, 2 * G + 1, U32_MAX, U32_MAX - 1, 2**31 - 1, 2**31]
 
 
+# dates for NaiveDate::and_hms*: range ends, a leap day, year ends, the epoch, and two that do not exist
+PDATES = [[-262143, 1], [262142, 365], [2024, 60], [2023, 365], [1970, 1], [0, 366], [2024, 366], [2023, 366], [262143, 1]]
+
+
 def cases(tier, rng):
     times = [[s, f] for s in SECS for f in FRACS]
     # ---- constructors
@@ -104,6 +108,7 @@ def cases(tier, rng):
             for s in ss:
                 yield case_line('t.hms', h, m, s)
                 yield case_line('t.phms', h, m, s)
+                yield case_line('ndt.phms', PDATES[(h + m + s) % len(PDATES)], h, m, s)
     subs = {
         't.hms_milli': [0, 1, 999, 1000, 1001, 1999, 2000, 2001, 4294, 4295, U32_MAX, 2147, 2148],
         't.hms_micro': [0, 1, 999999, 1000000, 1000001, 1999999, 2000000, 2000001, 4294967, 4294968, U32_MAX],
@@ -116,6 +121,7 @@ def cases(tier, rng):
                     for x in xs:
                         yield case_line(op, h, m, s, x)
                         yield case_line(op.replace('t.hms', 't.phms'), h, m, s, x)
+                        yield case_line(op.replace('t.hms', 'ndt.phms'), PDATES[(h + m + s + x) % len(PDATES)], h, m, s, x)
     for s in around([0, 59, 60, 119, 3599, 3600, 86339, 86399, 86400, 86459, U32_MAX], lo=0, hi=U32_MAX):
         for n in [0, 1, G - 1, G, G + 1, 2 * G - 1, 2 * G, 2 * G + 1, U32_MAX]:
             yield case_line('t.nsfm', s, n)
